@@ -119,10 +119,11 @@ def _engine_check(prop, cfgs, level_text, assumptions, modes=(0,), queries=False
         for h in EXTRA_HARNESSES.get(prop, []):
             jobs += harness_jobs(h, prop, tier, ["plain", "noslack"] if (h in ("fmt", "misc", "cons", "wfmt") and "noslack" in cfgs) else ["plain"], nw=1 if h in ("misc", "cons", "wfmt") else 4)
             hs.append(h)
-        if prop in ("C01", "C02"):      # string-level fold / normalise sweeps with every dmax (their faults are C01/C02 matters too)
-            li = build.build_lib("plain"); uexe = build.build_harness(li, "uni", ["uni.c"])
-            for mode in ("fcstr", "normstr"):
-                jobs.append(("uni/%s/plain" % mode, [uexe, "--prop", prop, "--tier", tier, "--seed", str(seed()), "--cfg", "plain", "--mode", mode]))
+        if prop in ("C01", "C02", "C03", "C04", "C05"):      # string-level fold / normalise sweeps with every dmax and both operand orders (faults, state after a failed call, handler count)
+            for cfg in (["plain", "noslack"] if (prop in ("C03", "C04") and "noslack" in cfgs) else ["plain"]):
+                li = build.build_lib(cfg); uexe = build.build_harness(li, "uni", ["uni.c"])
+                for mode in ("fcstr", "normstr"):
+                    jobs.append(("uni/%s/%s" % (mode, cfg), [uexe, "--prop", prop, "--tier", tier, "--seed", str(seed()), "--cfg", cfg, "--mode", mode]))
             hs.append("uni")
         run_workers(jobs, res)
         builds = list(cfgs)
@@ -188,7 +189,7 @@ def parse_tsan(stderr_text):
 
 FMT_RULE = ("formats: complete sweep of single integer directives (6 conversions x 8 length modifiers x 14 flag sets x 7 widths incl. '*' and negative '*' x 7 precisions "
             "incl. '.*' x 15 values; quick: every 23rd), single float directives (6 conversions x {plain, L} x 8 flag sets x 5 widths x 5 precisions x 24 values; quick: every 7th), "
-            "%s/%c directives with exact-fit and unterminated %.Ns arguments, seeded random formats of 1-4 directives with literal text and escaped percent signs (a third of them "
+            "%s/%c directives with exact-fit and unterminated %.Ns arguments, %ls (ASCII under C, non-ASCII under C.UTF-8, unterminated %.Nls arguments, precision 0), %lc, %b/%#b/%llb, %p, wide arguments the locale cannot represent (C printf fails: so must the library), seeded random formats of 1-4 directives with literal text and escaped percent signs (a third of them "
             "containing a %n-type directive in every spelling), each run through sprintf_s/snprintf_s/vsprintf_s/vsnprintf_s with dmax in {needed, needed-1, needed+2, 1, needed/2} and "
             "through fprintf_s/vfprintf_s/printf_s/vprintf_s on temporary files; history re-issue; distinct = (entry point, directive feature class, fit class, outcome)")
 
@@ -226,8 +227,8 @@ def _c09(tier):
     res.evaluations = res.counters.get("c09_decided", 0)
     return finish(res, tier, "exploration",
                   "narrow printf_s family (8 entry points): seeded random formats of 1-4 directives with literal text and escaped percent signs, a third containing a %n-type "
-                  "directive with random flags / width / '*' / precision / all 8 length modifiers; wide printf_s family (8) and narrow + wide scanf_s families (6 + 6): 21 spellings of "
-                  "the n conversion (plain, each length modifier, width, each flag, precision, '*', positional, after one / two escaped percent signs) x 3-4 surrounding contexts, on "
+                  "directive with random flags / width / '*' / precision / all 8 length modifiers; wide printf_s family (8) and narrow + wide scanf_s families (6 + 6): 27 spellings of "
+                  "the n conversion (plain, each length modifier, width, each flag, precision, '*', positional, after one / two escaped percent signs) x 4 printf / 6 scanf contexts (scansets before and after the directive, a literal ']' behind it) x history (format buffer fresh, or first accepted with harmless content and then changed in place), on "
                   "buffers, temporary-file streams and redirected stdin/stdout; every %n target is a poisoned sentinel; distinct = (entry point, spelling class, context)", t0,
                   extra_cov=dict(builds=["plain", "asan"], harnesses=["fmt", "fmtw"], n_formats=res.counters.get("n_formats", 0) + res.counters.get("c09_n_formats", 0),
                                  entry_points=28, exhaustive=False),
